@@ -112,9 +112,10 @@ CLAIMED = {
             "copy, loaded, round-tripped, and the typed helpers' definitions and parameter kinds/values are compared with the files.",
             "No lowering functions; byte identity and helper/definition agreement are binding checks on repository artefacts.",
             "DESIGN.md §5 C10"),
-    "C01": ("TLA+ spec HugrValidity.tla (transcription of the reference validator, split into Builder / User obligations) evaluated "
-            "by TLC on the raw wire documents emitted by the real builders (C->S): captured repository test programs + seeded random "
-            "well-formed programs",
+    "C01": ("TLA+ specs HugrValidity.tla (transcription of the reference validator, split into Builder / User obligations) and "
+            "HugrBuilder.tla (explicit state machine of the dataflow builders): TLC checks Finished => Valid(Doc) over all small builder "
+            "programs and replays every finished state on the real builders (S->C); TLC judges the raw wire documents of captured "
+            "repository test programs and seeded random well-formed programs (C->S)",
             "TLC reads the documents exactly as the implementation wrote them and evaluates User(d) => Builder(d) (allowed children, "
             "IO/entry/exit/case positions and rows, port counts, kind and type at both ends of every edge, order edge for every Ext wire, "
             "no value edge into a function body, Dom edges, CFG successor rows, constants inhabit their type; acyclicity, dominance, "
